@@ -16,7 +16,7 @@ func init() {
 	Registry["C07"] = &Property{
 		Title:       "Password-protected endpoints serve only requests carrying the exact credentials",
 		Run:         runC07,
-		Explanation: "Decides the shape of every credential gate: (R1) in the vhost HTTP proxy the route user given to the credential check and the one stored for forwarding have the same provenance (same helper / same headers), host from CanonicalHost(req.Host) and path from req.URL.Path on both sides; (R2) CheckAuth returns true for a found route only when no credential is configured or user and password both equal the presented ones; (R3) proxying and the CONNECT handler are reached only after CheckAuth returned true, the refusal answers 401 with a challenge; (R4) the tcpmux muxer hands a connection to a listener that has a user name only after checkAuth returned (true, nil), and its auth function returns true only on equality of both parts; (R5) the shared basic-auth middleware calls the next handler only when no credential is configured or both constant-time comparisons succeed; (R6) every dashboard / admin route except /healthz is registered on the sub-router that uses the middleware, which is built from the configured user and password; (R7) the http_proxy plugin reaches a backend (dial / round trip) only behind Auth()==true in every method and caller, Auth accepts only both constant-time equalities, socks5 installs credentials whenever one is configured and static_file installs the middleware before serving. Not decided: parsing corner cases inside net/http, timing side channels.",
+		Explanation: "Decides the shape of every credential gate: (R1) in the vhost HTTP proxy the route user given to the credential check and the one stored for forwarding have the same provenance (same helper / same headers), host from CanonicalHost(req.Host) and path from req.URL.Path on both sides; (R2) CheckAuth returns true for a found route only when no credential is configured or user and password both equal the presented ones; (R3) proxying and the CONNECT handler are reached only after CheckAuth returned true, the refusal answers 401 with a challenge; (R4) the tcpmux muxer hands a connection to a listener that has a user name only after checkAuth returned (true, nil), and its auth function returns true only on equality of both parts; (R5) the shared basic-auth middleware calls the next handler only when no credential is configured or both constant-time comparisons succeed; (R6) every dashboard / admin route except /healthz is registered on the sub-router that uses the middleware, which is built from the configured user and password; (R7) the http_proxy plugin reaches a backend (dial / round trip) only behind Auth()==true in every method and caller, Auth accepts only both constant-time equalities, socks5 installs credentials whenever one is configured and static_file installs the middleware before serving. (R8) every RouteConfig the server builds takes Username / Password / RouteByHTTPUser from the proxy's HTTPUser / HTTPPassword / RouteByHTTPUser, through helper parameters at every call site. Not decided: parsing corner cases inside net/http, timing side channels.",
 		Assumptions: commonAssumptions,
 	}
 }
@@ -255,9 +255,31 @@ func runC07(c *engine.Ctx) {
 			}
 		}
 	}
-	if a := fn(c, "pkg/util/tcpmux.HTTPConnectTCPMuxer.auth"); a != nil {
+	// the credential check is whatever function is installed through Muxer.SetCheckAuthFunc (found by use, not by name)
+	var authFns []*ssa.Function
+	if setAuth := method(c, "pkg/util/vhost", "Muxer", "SetCheckAuthFunc"); setAuth != nil {
+		for _, f := range c.P.RepoFuncs() {
+			for _, call := range engine.CallsTo(f, setAuth) {
+				args := engine.CallArgs(call)
+				af := funcValueOf(c.P, args[len(args)-1])
+				if af == nil {
+					c.Undecide(c.P.FuncName(f)+">SetCheckAuthFunc", call.Pos(), "the installed credential check is not a statically known function")
+					continue
+				}
+				authFns = append(authFns, af)
+			}
+		}
+	}
+	for _, a := range authFns {
+		if len(a.Params) < 4 {
+			continue
+		}
 		n++
-		c.AllPaths("pkg/util/tcpmux.HTTPConnectTCPMuxer.auth", engine.PathCheck{Fn: a, Sink: engine.IsReturn, Pred: func(st *engine.PathState) string {
+		userP, passP := a.Params[len(a.Params)-3], a.Params[len(a.Params)-2]
+		isP := func(p *ssa.Parameter) func(ssa.Value) bool {
+			return func(v ssa.Value) bool { return v == ssa.Value(p) }
+		}
+		c.AllPaths(c.P.FuncName(a), engine.PathCheck{Fn: a, Sink: engine.IsReturn, Pred: func(st *engine.PathState) string {
 			r := st.Sink.(*ssa.Return)
 			res, isC := engine.ConstBool(st.Resolve(r.Results[0]))
 			if !isC {
@@ -276,8 +298,8 @@ func runC07(c *engine.Ctx) {
 					return ok && s == key
 				}
 			}
-			e1, k1 := st.Equal(isParam("username"), lookup("HTTPUser"))
-			e2, k2 := st.Equal(isParam("password"), lookup("HTTPPwd"))
+			e1, k1 := st.Equal(isP(userP), lookup("HTTPUser"))
+			e2, k2 := st.Equal(isP(passP), lookup("HTTPPwd"))
 			if !(k1 && e1 && k2 && e2) {
 				return "auth accepts on a path where user name and password were not both found equal to the presented ones"
 			}
@@ -612,4 +634,91 @@ func runC07(c *engine.Ctx) {
 		c.Check(use && useIdx < serveIdx, "pkg/plugin/client.NewStaticFilePlugin", f.Pos(), 2, nil, "the file handler is registered on a router that already uses the middleware built from HTTPUser/HTTPPassword")
 	}
 	c.Floor(n, 6)
+
+	// ---- R8 ----
+	checkCredentialPlumbing(c, "R8")
+}
+
+// checkCredentialPlumbing: every vhost.RouteConfig the server builds for a proxy takes Username from the proxy's
+// HTTPUser, Password from HTTPPassword and RouteByHTTPUser from RouteByHTTPUser, also when the values travel through
+// the parameters of a helper (one level, every call site): three adjacent string parameters are easy to cross, and a
+// route registered with an empty Username is served without any credential check.
+func checkCredentialPlumbing(c *engine.Ctx, rule string) {
+	c.Rule(rule, "server/proxy: each RouteConfig literal stores Username from cfg.HTTPUser, Password from cfg.HTTPPassword and RouteByHTTPUser from cfg.RouteByHTTPUser (through helper parameters at every call site)")
+	p := c.P
+	rc := p.Named("pkg/util/vhost", "RouteConfig")
+	want := []struct{ dst, src string }{{"Username", "HTTPUser"}, {"Password", "HTTPPassword"}, {"RouteByHTTPUser", "RouteByHTTPUser"}}
+	n := 0
+	if rc == nil {
+		c.Missing("pkg/util/vhost.RouteConfig", "type not found")
+		return
+	}
+	var pkgFuncs []*ssa.Function
+	for _, f := range p.RepoFuncs() {
+		if f.Pkg != nil && strings.HasSuffix(f.Pkg.Pkg.Path(), "/server/proxy") {
+			pkgFuncs = append(pkgFuncs, f)
+		}
+	}
+	for _, f := range pkgFuncs {
+		f := f
+		engine.ForEachInstr(f, func(in ssa.Instruction) {
+			al, ok := in.(*ssa.Alloc)
+			if !ok || engine.NamedOf(al.Type()) != rc {
+				return
+			}
+			for _, w := range want {
+				dst := p.Field("pkg/util/vhost", "RouteConfig", w.dst)
+				if dst == nil {
+					c.Missing("pkg/util/vhost.RouteConfig."+w.dst, "field not found")
+					continue
+				}
+				for _, sv := range nameStores(al, dst) {
+					n++
+					ss := provThroughCallers(sv, f, pkgFuncs...)
+					good, bad := false, ""
+					for _, src := range ss {
+						for fv := range src.Fields {
+							for _, o := range want {
+								if fv.Name() == o.src {
+									if o.src == w.src {
+										good = true
+									} else {
+										bad = o.src
+									}
+								}
+							}
+						}
+					}
+					c.Check(good && bad == "", fmt.Sprintf("%s>RouteConfig.%s", p.FuncName(f), w.dst), al.Pos(), len(ss), nil,
+						"RouteConfig.%s is fed from the proxy's %s only (also receives: %q)", w.dst, w.src, bad)
+				}
+			}
+		})
+	}
+	c.Floor(n, 6)
+}
+
+// funcValueOf resolves a function-typed value to the source function it denotes: a function, a closure, or a bound
+// method value (x.m), which SSA represents as a closure over a synthetic wrapper.
+func funcValueOf(p *engine.Prog, v ssa.Value) *ssa.Function {
+	switch x := engine.Unwrap(v).(type) {
+	case *ssa.Function:
+		return unwrapBound(p, x)
+	case *ssa.MakeClosure:
+		if f, ok := x.Fn.(*ssa.Function); ok {
+			return unwrapBound(p, f)
+		}
+	}
+	return nil
+}
+
+func unwrapBound(p *engine.Prog, f *ssa.Function) *ssa.Function {
+	if f.Synthetic != "" && f.Object() != nil {
+		if fo, ok := f.Object().(*types.Func); ok {
+			if r := p.FuncOf(fo); r != nil {
+				return r
+			}
+		}
+	}
+	return f
 }
